@@ -17,7 +17,7 @@ SHARDS = {"quick": 8, "thorough": 16}
 RULE = ("a settable state (power, mode 1..6, setpoint 13.0..43.5 step 0.5, fan 0..127, swing, eco, turbo, sleep, Fahrenheit, "
         "freeze protection, follow-me, purifier, target humidity 0..127, aux mode, beep) is written through AirConditioner "
         "setters + apply() to a model device whose 0x40 decoder follows the vendor Lua layout (and through SetStateCommand "
-        "directly for all 16 raw swing nibbles), on a fresh client or after get_capabilities() against two capability profiles (one without custom fan speeds), with or without property-protocol settings pending in the same apply(), through the canonical attributes or the deprecated alias attributes (eco_mode, turbo_mode, sleep_mode, freeze_protection_mode); the decoded body must equal the request field by field, vendor-fixed constants must "
+        "directly for all 16 raw swing nibbles), on a fresh client or after get_capabilities() against two capability profiles (one without custom fan speeds), with or without property-protocol settings pending in the same apply(), while the object is otherwise idle or while an earlier refresh()/apply() of the same object is still awaiting its answer, through the canonical attributes or the deprecated alias attributes (eco_mode, turbo_mode, sleep_mode, freeze_protection_mode); the decoded body must equal the request field by field, vendor-fixed constants must "
         "hold (0x40, mobile-client bit, timers off, swing high bits 0x30, undefined bits clear), and no two different states may "
         "share a body. Per-field exhaustive sweeps (62 setpoints x 6 modes, 128 fan bytes, humidity 0..127, flags sharing a "
         "byte in all combinations) over two backgrounds, a greedy pairwise covering array, and Hypothesis random states. "
@@ -30,7 +30,7 @@ BASE = {"power": False, "mode": 2, "target": 24.0, "fan": 102, "swing": 0, "eco"
 FLAGS = ["power", "beep", "follow_me", "turbo", "eco", "purifier", "sleep", "fahrenheit", "freeze"]
 
 
-def _apply_and_get_body(s: dict, via: str, caps_profile=None, case_propset=0, case_aliases=False):
+def _apply_and_get_body(s: dict, via: str, caps_profile=None, case_propset=0, case_aliases=False, inflight=None):
     """Returns (body bytes, model state, rejected list)."""
     from msmart.device import AirConditioner as AC
     from msmart.device.AC.command import SetStateCommand
@@ -70,6 +70,14 @@ def _apply_and_get_body(s: dict, via: str, caps_profile=None, case_propset=0, ca
             await ac.get_capabilities()
             if caps_profile == "caps0+refresh":
                 await ac.refresh()
+        bg = None
+        if inflight:
+            # schedule: a poll (or an earlier apply) of the same object is still waiting for its answer when the user
+            # changes attributes and calls apply(); the command must carry the state requested at that call
+            import asyncio
+            dev.latency = 0.3
+            bg = asyncio.ensure_future(ac.refresh() if inflight == "refresh" else ac.apply())
+            await asyncio.sleep(0.1)
         if case_aliases:
             # (set the canonical attributes to the opposite first so that only the alias carries the requested value)
             acutil.set_attrs(ac, dict(s, eco=not s["eco"], turbo=not s["turbo"], sleep=not s["sleep"], freeze=not s["freeze"]))
@@ -91,12 +99,18 @@ def _apply_and_get_body(s: dict, via: str, caps_profile=None, case_propset=0, ca
                 ac.ieco = True
                 ac.rate_select = AC.RateSelect.LEVEL_3
                 ac.breezeless = True
+        n0 = len(dev.ac.control_bodies)
         await ac.apply()
+        if bg is not None:
+            await bg
+            res["index"] = n0     # the body of the command issued by *this* apply()
         res["m"] = dev.ac
         ac._lan._disconnect()
 
     vloop.run(main, net)
     m = res["m"]
+    if "index" in res:
+        return (m.control_bodies[res["index"]] if len(m.control_bodies) > res["index"] else None), m.state, m.rejected
     return (m.control_bodies[-1] if m.control_bodies else None), m.state, m.rejected
 
 
@@ -106,7 +120,7 @@ _SEEN: dict = {}
 def check_case(case: dict):
     s = case["state"]
     via = case.get("via", "device")
-    body, state, rejected = _apply_and_get_body(s, via, case.get("caps"), case.get("propset", 0), case.get("aliases", False))
+    body, state, rejected = _apply_and_get_body(s, via, case.get("caps"), case.get("propset", 0), case.get("aliases", False), case.get("inflight"))
     if rejected:
         return ("rejected", f"model device rejected the command: {rejected[0][1]}")
     if body is None:
@@ -146,9 +160,11 @@ def replay(ctx, case):
 def _run_one(ctx, case):
     s = case["state"]
     nt = s != BASE
-    ctx.case(hash((tuple(sorted(s.items())), case.get("via", "device"), case.get("caps"), case.get("propset", 0), case.get("aliases", False))), nt, cls=case.get("cls", "state") + "/" + case.get("via", "device"))
+    ctx.case(hash((tuple(sorted(s.items())), case.get("via", "device"), case.get("caps"), case.get("propset", 0), case.get("aliases", False), case.get("inflight"))), nt, cls=case.get("cls", "state") + "/" + case.get("via", "device"))
     if case.get("caps") and case.get("via", "device") == "device":
         ctx.label("after get_capabilities (" + case["caps"] + ")")
+    if case.get("inflight") and case.get("via", "device") == "device":
+        ctx.label("apply() while an earlier " + case["inflight"] + "() is in flight")
     ctx.sample(case.get("cls", "state"), case)
     return check_case(case)
 
@@ -219,8 +235,10 @@ def run(ctx) -> None:
                 case = dict(case, caps=["caps0", "caps1", "caps0+refresh"][(i // 5) % 3])
             elif "via" not in case and i % 5 == 2:
                 case = dict(case, propset=1 + (i // 5) % 2)
-            elif "via" not in case and i % 10 == 0:
+            elif "via" not in case and i % 20 == 0:
                 case = dict(case, aliases=True)
+            elif "via" not in case and i % 20 == 10:
+                case = dict(case, inflight=["refresh", "apply"][(i // 20) % 2])
             ctx.check(case, lambda c: _run_one(ctx, c))
     ctx.sweep("per-field exhaustive sweeps x 2 backgrounds + flag combinations + pairwise array", len(cases), True)
 
@@ -228,5 +246,5 @@ def run(ctx) -> None:
     wide = st.fixed_dictionaries({"state": st.one_of(full, full.flatmap(lambda s: st.integers(0, 127).map(lambda f: dict(s, fan=f))),
                                                      full.flatmap(lambda s: st.integers(0, 127).map(lambda h: dict(s, humidity=h)))),
                                   "via": st.sampled_from(["device", "device", "command"]), "cls": st.just("random"),
-                                  "caps": st.sampled_from([None, "caps0", "caps1", "caps0+refresh"]), "propset": st.sampled_from([0, 0, 1, 2]), "aliases": st.sampled_from([False, False, True])})
+                                  "caps": st.sampled_from([None, "caps0", "caps1", "caps0+refresh"]), "propset": st.sampled_from([0, 0, 1, 2]), "aliases": st.sampled_from([False, False, True]), "inflight": st.sampled_from([None, None, None, "refresh", "apply"])})
     ctx.hyp("random", wide, lambda c: _run_one(ctx, c), ctx.n(2500, 320000))
